@@ -8,7 +8,7 @@ from .env import Fxp, to_float, is_exact_float, flat, exact, codes_of, tok_exact
 
 INT_DTYPES = ('int8', 'int16', 'int32', 'int64', 'uint8', 'uint16', 'uint32', 'uint64')
 FLOAT_DTYPES = ('float16', 'float32', 'float64', 'longdouble')
-SCALAR_CARRIERS = ('pyint', 'pyfloat', 'decstr', 'npstr', 'arr0d', 'fxp') + tuple('np.' + d for d in INT_DTYPES + FLOAT_DTYPES)
+SCALAR_CARRIERS = ('pyint', 'pyfloat', 'decstr', 'decimal', 'npstr', 'arr0d', 'fxp') + tuple('np.' + d for d in INT_DTYPES + FLOAT_DTYPES)
 ARRAY_CARRIERS = ('list', 'listf', 'listnp', 'tuple', 'nested', 'strlist', 'strarr', 'arr.fxp', 'arr2.fxp') + tuple('arr.' + d for d in INT_DTYPES + FLOAT_DTYPES) + tuple('arr2.' + d for d in ('int64', 'float64', 'float32', 'int16'))
 ROUTES = ('ctor', 'call', 'setval', 'setitem', 'tmpl', 'tmplkw')
 
@@ -108,6 +108,9 @@ def ok_for(carrier, vals):
         return len(vals) == 1 and is_exact_float(vals[0])
     if carrier == 'decstr':
         return len(vals) == 1 and is_exact_float(vals[0]) and vals[0].denominator.bit_length() <= 80
+    if carrier == 'decimal':
+        # decimal.Decimal holds a dyadic rational exactly (it need not be a double); the context precision must not round it
+        return len(vals) == 1 and vals[0].denominator.bit_length() <= 60 and len(dec_string(vals[0]).replace('-', '').replace('.', '')) <= 27
     if carrier in ('list', 'tuple', 'nested'):
         return all(v.denominator == 1 or is_exact_float(v) for v in vals)
     if carrier == 'listf':
@@ -137,6 +140,9 @@ def build(carrier, vals):
         return np.array(to_float(vals[0])), ()
     if carrier == 'decstr':
         return dec_string(vals[0]), ()
+    if carrier == 'decimal':
+        import decimal
+        return decimal.Decimal(dec_string(vals[0])), ()
     if carrier == 'fxp' or dt == 'fxp':
         # another Fxp object holding the values exactly (integer-born when all values are integers)
         if fxp_source_format(vals) is None or not all(v.denominator == 1 or is_exact_float(v) for v in vals):
